@@ -108,6 +108,8 @@ class Lexer:
                     # Hex escape \xNN
                     hex_chars = self._advance() + self._advance()
                     try:
+                        if not all(c in "0123456789abcdefABCDEF" for c in hex_chars):
+                            raise ValueError(hex_chars)
                         result.append(chr(int(hex_chars, 16)))
                     except ValueError:
                         raise JSSyntaxError(
@@ -128,8 +130,10 @@ class Lexer:
                         for _ in range(4):
                             hex_chars += self._advance()
                     try:
+                        if not all(c in "0123456789abcdefABCDEF" for c in hex_chars):
+                            raise ValueError(hex_chars)
                         result.append(chr(int(hex_chars, 16)))
-                    except ValueError:
+                    except (ValueError, OverflowError):
                         raise JSSyntaxError(
                             f"Invalid unicode escape: \\u{hex_chars}",
                             self.line,
@@ -225,7 +229,12 @@ class Lexer:
     @staticmethod
     def _integer_value(value: int) -> float | int:
         """An integer literal as a Number: exact up to 2**53, a double beyond."""
-        return value if value <= 2**53 else float(value)
+        if value <= 2**53:
+            return value
+        try:
+            return float(value)
+        except OverflowError:
+            return float("inf")
 
     def _read_identifier(self) -> str:
         """Read an identifier."""
